@@ -88,21 +88,25 @@ Better(ts, S1, S2) == \E z \in 1..12 : Cnt(ts, S1, z) > Cnt(ts, S2, z) /\ \A y \
 
 RecMap(m) == [k \in {m[i][2] : i \in DOMAIN m} |-> m[CHOOSE i \in DOMAIN m : m[i][2] = k][1]]      \* template node -> atom
 RecCover(c) == {[t |-> c.cover[i].t, f |-> RecMap(c.cover[i].match)] : i \in DOMAIN c.cover}
-(* the part of the recorded cover that places a requested modification on the atoms of requested group j *)
-RecFor(mol, c, j) == {s \in RecCover(c) : s.t \in Requested(mol, SeqSet(c.ptms[j].atoms)) /\ RangeOf(s.f) \subseteq SeqSet(c.ptms[j].atoms)}
+(* REQUESTED modifications.  LabelledWith = the atoms of a group on which RepairGraph wrote modification t; the placement
+   expected for t is the embedding BY NAME into the touched residues that contains all of them.  A requested group is inside
+   the specification when every requested modification has exactly one such placement and these placements account for all
+   atoms of the group (unique atom names per residue)                                                                       *)
+LabelledWith(mol, A, t) == {a \in A : t \in SeqSet(mol.nodes[a].mods)}
+ReqEmb(mol, ts, c, A, t) == {g \in NameEmb(mol, ts[t], Within(mol, c)) : LabelledWith(mol, A, t) \subseteq RangeOf(g)}
+ReqSpecified(mol, ts, c, A) ==
+  /\ \A t \in Requested(mol, A) : t \in DOMAIN ts /\ Cardinality(ReqEmb(mol, ts, c, A, t)) = 1
+  /\ A \subseteq UNION {RangeOf(CHOOSE g \in ReqEmb(mol, ts, c, A, t) : TRUE) : t \in Requested(mol, A)}
+(* the part of the recorded cover that places a requested modification of group j on the atoms labelled with it *)
+RecFor(mol, c, j) ==
+  LET A == SeqSet(c.ptms[j].atoms) IN {s \in RecCover(c) : s.t \in Requested(mol, A) /\ LabelledWith(mol, A, s.t) \subseteq RangeOf(s.f)}
 RecReq(mol, c) == UNION {RecFor(mol, c, j) : j \in ReqIdx(mol, c)}
 RecUnx(mol, c) == RecCover(c) \ RecReq(mol, c)
-
-(* a requested group is inside the specification when every requested modification has exactly one placement by name on
-   the atoms of the group and these placements account for all its atoms (unique atom names per residue)                   *)
-ReqSpecified(mol, ts, A) ==
-  /\ \A t \in Requested(mol, A) : t \in DOMAIN ts /\ Cardinality(NameEmb(mol, ts[t], A)) = 1
-  /\ A = UNION {RangeOf(CHOOSE g \in NameEmb(mol, ts[t], A) : TRUE) : t \in Requested(mol, A)}
 JudgeRequested(mol, ts, c, j) ==
   LET A == SeqSet(c.ptms[j].atoms) IN
-  IF ~ReqSpecified(mol, ts, A) THEN "unjudged:requested-modification-has-no-unique-placement-by-name"
+  IF ~ReqSpecified(mol, ts, c, A) THEN "unjudged:requested-modification-has-no-unique-placement-by-name"
   ELSE IF c.outcome # "identified" THEN "requested-modification-not-identified"
-  ELSE IF \E t \in Requested(mol, A) : {s.f : s \in {x \in RecFor(mol, c, j) : x.t = t}} # NameEmb(mol, ts[t], A)
+  ELSE IF \E t \in Requested(mol, A) : {s.f : s \in {x \in RecFor(mol, c, j) : x.t = t}} # ReqEmb(mol, ts, c, A, t)
        THEN "requested-modification-not-placed-on-its-atoms"
   ELSE "ok"
 
